@@ -43,19 +43,16 @@ class _CtShim:
 
 
 def sym_class():
+    """SpectrumResult with EVERY method (and every module-level helper it may call) re-created over the shim namespace"""
     if "cls" in _C:
         return _C["cls"]
     import speckit.analysis as A
+    from symx.shim import clone_module
     NP = NumpyShim(interp=interp_stub)
-    over = dict(np=NP)
-
-    class SymResult(A.SpectrumResult):
-        pass
-    for nm in ("__init__", "__getattr__", "get_measurement", "get_rms", "__len__"):
-        setattr(SymResult, nm, clone(getattr(A.SpectrumResult, nm), **over))
-    SymResult.__name__ = "SpectrumResult"
-    _C["cls"] = SymResult
-    return SymResult
+    G = clone_module(A, dict(np=NP))
+    _C["cls"] = G["SpectrumResult"]
+    _C["G"] = G
+    return _C["cls"]
 
 
 def encoded():
